@@ -490,6 +490,10 @@ class SourceCatalog:
         for attr in init_attr:
             setattr(newcls, attr, getattr(self, attr))
 
+        # the new catalog must not share the (mutable) list of extra
+        # property names with its parent
+        newcls._extra_properties = self._extra_properties.copy()
+
         # _labels determines ordering and isscalar
         attr = '_labels'
         setattr(newcls, attr, getattr(self, attr)[index])
